@@ -124,13 +124,27 @@ def c17(tier, rng, seed):
         bases.append(P.random_history(rng, rng.choice([4, 8, 20, 50])))
     cases = []
     index = []   # (start of base run, start of variant run, position, length)
+    # an unfragmented sentence in front of its own twin: same payload (variable-length tail, arbitrary bits in the
+    # fill positions) announced with another fill count, or differing in one sentence field
+    twins = {}
+    for _ in range(P.scale(tier, 250, 2500)):
+        t = rng.choice([5, 6, 8, 12, 14, 17])
+        bits = gen.message_bits(rng, t, 'random') + ''.join(rng.choice('01') for _ in range(rng.randrange(0, 40)))
+        pay, fill = gen.armor(bits, ''.join(rng.choice('01') for _ in range(6)))
+        a = gen.sentence(pay, fill)
+        b = rng.choice([gen.sentence(pay, rng.choice([f for f in range(6) if f != fill])), gen.sentence(pay, fill, chan=b'B'),
+                        gen.sentence(pay, fill, sid=4), gen.sentence(pay, fill, addr=b'AIVDO')])
+        h = [b] + P.random_history(rng, rng.choice([0, 2]))
+        bases.append(h); twins[id(h)] = a
     for h in bases:
         pos = rng.randrange(len(h) + 1)
         x = rng.choice(transparent_pool) if rng.random() < 0.7 else rng.choice([gen.valid_sentence(rng), gen.mutate(rng, gen.valid_sentence(rng)), gen.random_line(rng)])
+        if id(h) in twins: pos, x = 0, twins[id(h)]
         fragment_like = not (b',1,1,' in x)
         xd = 0 if fragment_like else rng.randrange(2)
         s0 = len(cases); cases.append('H')
         ds = [rng.randrange(2) for _ in h]
+        if id(h) in twins: xd = 1; ds = [1] * len(h)
         for l, d in zip(h, ds): cases.append(P.L(0, d, l))
         s1 = len(cases); cases.append('H')
         for j, (l, d) in enumerate(zip(h, ds)):
@@ -148,6 +162,7 @@ def c17(tier, rng, seed):
             if ib >= len(b) or (ia < len(a) and rng.random() < 0.5): inter.append(P.L(0, 1, a[ia])); ia += 1
             else: inter.append(P.L(1, 1, b[ib])); ib += 1
     inter += explored('hist', tier)
+    inter += P.sentence_path_cases(rng, tier)        # same payload under another fill count, one-field variants
     allc = cases + inter
     io = c.run_impl(allc, 'std', 'debug'); mo = c.run_model(allc, 'std', 'asis')
     def strip(x): return c.split_line(x)[0]
